@@ -215,6 +215,12 @@ func (r *runner) step(b []op, first bool) (*stepObs, error) {
 	return o, nil
 }
 
+// crtAllowed / caAllowed: the permission the configuration documents for tls certificates
+// (cross-namespace-secrets-crt) and for CA bundles (cross-namespace-secrets-ca);
+// --allow-cross-namespace turns both on.
+func (in input) crtAllowed() bool { return in.CrossNS || strings.EqualFold(in.XCrt, "allow") }
+func (in input) caAllowed() bool  { return in.CrossNS || strings.EqualFold(in.XCa, "allow") }
+
 // universe: the SNI names looked at.
 func universe(in input) []string {
 	names := append([]string{}, sniNames...)
@@ -333,7 +339,7 @@ func check(in input, res *hx.Result, count, wantCoq bool) ([]failure, []*stepObs
 		}
 		all = append(all, o)
 		c.apply(b)
-		v := newView(c.clone(), in.DefaultSecret, in.CrossNS)
+		v := newView(c.clone(), in.DefaultSecret, in.crtAllowed(), in.caAllowed())
 		bad := map[string]bool{}
 		for _, n := range r.names {
 			e := v.expect(n)
@@ -391,7 +397,11 @@ func check(in input, res *hx.Result, count, wantCoq bool) ([]failure, []*stepObs
 					res.OracleChecks++
 					res.Count("name_auth_tls")
 				}
-				if !found {
+				if e.CAForbidden && found {
+					add(failure{key: "C15/auth-tls-ca-of-forbidden-namespace", step: i, what: fmt.Sprintf("step %d: auth-tls host %s: its crt-list line carries the CA bundle %s of another namespace although cross-namespace-secrets-ca denies reading it", i, n, e.CA),
+						observed: map[string]interface{}{"crt_list": o.Lines}, expected: e})
+				}
+				if !e.CAForbidden && !found {
 					add(failure{key: "C15/auth-tls-ca-missing", step: i, what: fmt.Sprintf("step %d: auth-tls host %s: no crt-list line of the host carries ca-file with the content %s of its CA secret", i, n, e.CA),
 						observed: map[string]interface{}{"crt_list": o.Lines}, expected: e})
 				}
@@ -410,6 +420,16 @@ func check(in input, res *hx.Result, count, wantCoq bool) ([]failure, []*stepObs
 			bad[n] = true
 			key := "C15/sni-wrong-certificate"
 			what := fmt.Sprintf("step %d: SNI %s is served with certificate content %s, expected %s", i, n, got, e.Content)
+			if e.Decl != nil && e.Class == "declared" && e.Decl.Forbidden && got != v.defContent {
+				if c, ok := v.secretContent(strings.TrimPrefix(e.Decl.Raw, "secret://")); ok && c == got {
+					key = "C15/forbidden-cross-namespace-secret-served"
+					what = fmt.Sprintf("step %d: host %s declares tls with secret %q of another namespace (ingress %s); cross-namespace-secrets-crt denies reading it, so the default certificate must be served, but SNI selects that secret's certificate %s", i, n, e.Decl.Raw, e.Decl.Ingress, got)
+				}
+			}
+			if e.Decl != nil && e.Class == "declared" && e.SecretKey != "" && got == v.defContent && strings.Contains(strings.TrimPrefix(e.Decl.Raw, "secret://"), "/") {
+				key = "C15/permitted-cross-namespace-secret-refused"
+				what = fmt.Sprintf("step %d: host %s declares tls with secret %q (ingress %s), readable under the configured permission and valid, but SNI selects the default certificate", i, n, e.Decl.Raw, e.Decl.Ingress)
+			}
 			if e.Wild != "" && got == e.WildContent && e.Content == v.defContent {
 				switch {
 				case e.Class == "declared":
@@ -585,11 +605,12 @@ func main() {
 		for _, in := range loadCorpus() {
 			jobs = append(jobs, job{in: in, corpus: true, corr: !o.Search})
 		}
-		nCorr := o.Count(210, 2500)
+		nCorr := o.Count(170, 2500)
+		nX := o.Count(70, 900)
 		nWide := o.Count(90, 1500)
 		nSock := o.Count(40, 600)
 		if o.Search {
-			nCorr, nWide, nSock = o.Count(1500, 6000), o.Count(500, 2000), 200
+			nCorr, nWide, nSock, nX = o.Count(1500, 6000), o.Count(500, 2000), 200, o.Count(400, 1500)
 		}
 		for i := 0; i < nCorr; i++ {
 			jobs = append(jobs, job{in: input{History: genHistory(rng, genCfg{foreign: true}, 1+rng.Intn(4))}, corr: !o.Search})
@@ -612,6 +633,29 @@ func main() {
 			in.History = genHistory(rng, cfg, 1+rng.Intn(4))
 			jobs = append(jobs, job{in: in, corr: !o.Search})
 		}
+		// cross-namespace references under the four combinations of the two global keys
+		// (and --allow-cross-namespace): the crt key governs tls secrets, the ca key the CA
+		// bundles of auth-tls
+		for i := 0; i < nX; i++ {
+			cfg := genCfg{foreign: true, xns: true, ann: i%3 == 2}
+			in := input{}
+			switch i % 4 {
+			case 1:
+				in.XCrt = "allow"
+			case 2:
+				in.XCa = "allow"
+			case 3:
+				in.XCrt, in.XCa = "Allow", "allow"
+			}
+			if i%8 == 4 {
+				in.XCrt, in.XCa = "deny", "denied"
+			}
+			if i%9 == 8 {
+				in.CrossNS = true
+			}
+			in.History = genHistory(rng, cfg, 1+rng.Intn(4))
+			jobs = append(jobs, job{in: in, corr: !o.Search})
+		}
 		for i := 0; i < nSock; i++ {
 			jobs = append(jobs, job{in: input{History: genHistory(rng, genCfg{foreign: true, replicated: i%2 == 0}, 1+rng.Intn(4)), Socket: true}, corr: !o.Search})
 		}
@@ -624,7 +668,7 @@ func main() {
 	for ji, j := range jobs {
 		in := j.in
 		canon, _ := json.Marshal(in)
-		conv := j.corr && in.DefaultSecret == "" && !in.CrossNS && !in.Gateway && !in.Probe
+		conv := j.corr && in.DefaultSecret == "" && !in.Gateway && !in.Probe
 		fails, obs, err := check(in, res, true, conv)
 		if err != nil {
 			res.Count("harness_error")
@@ -659,6 +703,9 @@ func main() {
 		}
 		if in.Gateway {
 			res.Count("mode_gateway")
+		}
+		if in.XCrt != "" || in.XCa != "" {
+			res.Count(fmt.Sprintf("mode_xns_crt=%v_ca=%v", in.crtAllowed(), in.caAllowed()))
 		}
 		for _, b := range in.History[min(1, len(in.History)):] {
 			for _, x := range b {
